@@ -135,7 +135,9 @@ type StackCase struct {
 	Warm bool `json:"warm,omitempty"`
 }
 
-var alphabet = []string{"401basic", "401bearer", "408", "429", "500", "502", "503", "504", "timeout", "neterr", "200", "201", "404", "400"}
+// "temperr": a net.Error that is Temporary() but not Timeout() (e.g. a DNS SERVFAIL):
+// the documented predicate does not retry it
+var alphabet = []string{"401basic", "401bearer", "408", "429", "500", "502", "503", "504", "timeout", "neterr", "temperr", "200", "201", "404", "400"}
 
 func genStack(t *rapid.T) StackCase {
 	c := StackCase{}
@@ -146,7 +148,7 @@ func genStack(t *rapid.T) StackCase {
 	}
 	c.Script = append(c.Script, "200")
 	c.Partial = append(c.Partial, false)
-	c.BodyKind = rapid.SampledFrom([]string{"none", "nobody", "replayable", "replayable", "custom-getbody", "oneshot", "oneshot"}).Draw(t, "bodyKind")
+	c.BodyKind = rapid.SampledFrom([]string{"none", "nobody", "replayable", "replayable", "custom-getbody", "getbody-fails", "oneshot", "oneshot"}).Draw(t, "bodyKind")
 	c.Size = rapid.SampledFrom([]int{0, 1, 17, 4096, 70000, 262144}).Draw(t, "size")
 	c.Unknown = rapid.IntRange(0, 3).Draw(t, "unknown") == 0
 	c.Undeclared = !c.Unknown && rapid.IntRange(0, 3).Draw(t, "undeclared") == 0
@@ -170,6 +172,12 @@ type timeoutErr struct{}
 func (timeoutErr) Error() string   { return "verif: i/o timeout" }
 func (timeoutErr) Timeout() bool   { return true }
 func (timeoutErr) Temporary() bool { return true }
+
+type tempErr struct{}
+
+func (tempErr) Error() string   { return "verif: temporary failure in name resolution" }
+func (tempErr) Timeout() bool   { return false }
+func (tempErr) Temporary() bool { return true }
 
 type attempt struct {
 	send    int
@@ -254,6 +262,8 @@ func (s *server) RoundTrip(req *http.Request) (*http.Response, error) {
 		return nil, timeoutErr{}
 	case "neterr":
 		return nil, errors.New("verif: connection reset")
+	case "temperr":
+		return nil, tempErr{}
 	case "429":
 		return mk(429, http.Header{"Retry-After": []string{"0"}})
 	}
@@ -333,14 +343,20 @@ func runStackInner(c StackCase) (res vt.Result, fail *vt.Fail) {
 		body = http.NoBody
 	case "replayable":
 		body = bytes.NewReader(payload)
-	case "custom-getbody", "oneshot":
+	case "custom-getbody", "oneshot", "getbody-fails":
 		body = &oneShot{bytes.NewReader(payload)}
 	}
 	req, err := http.NewRequest(http.MethodPut, "https://srv.test/v2/a/blobs/uploads/x?digest=sha256:00", body)
 	if err != nil {
 		return res, vt.Failf("harness/newrequest", "%v", err)
 	}
-	hasBody := c.BodyKind == "replayable" || c.BodyKind == "custom-getbody" || c.BodyKind == "oneshot"
+	hasBody := c.BodyKind == "replayable" || c.BodyKind == "custom-getbody" || c.BodyKind == "oneshot" || c.BodyKind == "getbody-fails"
+	if c.BodyKind == "getbody-fails" {
+		// nominally replayable, but the body cannot be produced again (a spool file
+		// that is gone): like a one-shot body, it must never be re-sent truncated
+		req.GetBody = func() (io.ReadCloser, error) { return nil, errors.New("verif: body cannot be reopened") }
+		req.ContentLength = int64(len(payload))
+	}
 	if c.BodyKind == "custom-getbody" {
 		req.GetBody = func() (io.ReadCloser, error) { return io.NopCloser(bytes.NewReader(payload)), nil }
 		req.ContentLength = int64(len(payload))
@@ -392,7 +408,7 @@ func runStackInner(c StackCase) (res vt.Result, fail *vt.Fail) {
 			return res, vt.Failf("C17/content-length-wrong", "attempt %d declared Content-Length %d for a %d byte body", i, at.length, len(payload))
 		}
 	}
-	if c.BodyKind == "oneshot" && c.Size > 0 && withBody > 1 {
+	if (c.BodyKind == "oneshot" || c.BodyKind == "getbody-fails") && c.Size > 0 && withBody > 1 {
 		return res, vt.Failf("C17/oneshot-body-resent", "a body that cannot be replayed was sent on %d attempts", withBody)
 	}
 	// 2. bounded: attempts per send <= MaxRetry+1
